@@ -592,13 +592,14 @@ func classYAML(name string, t *taskJ) string {
 }
 
 type world struct {
-	s       *simcore.Sim
-	rec     *vplugin.Recorder
-	mu      sync.Mutex
-	snap    map[string]taskSnap // env id | role path -> snapshot
-	seq      int
-	retries  int
-	reoffers int
+	s         *simcore.Sim
+	rec       *vplugin.Recorder
+	mu        sync.Mutex
+	snap      map[string]taskSnap // env id | role path -> snapshot
+	seq       int
+	retries   int
+	reoffers  int
+	abandoned int
 }
 
 type taskSnap struct {
@@ -871,8 +872,20 @@ func (w *world) runEnvOnce(in envInput) (gen.Case, bool) {
 		eo.Error = err.Error()
 	}
 	// clean up so that the roster stays small
+	// (the teardown of the core can wait for ever for a release notification — a liveness
+	// defect recorded under C06 that has nothing to do with channels; it is abandoned then)
 	if err == nil {
-		_, _ = s.Rpc.DestroyEnvironment(context.Background(), &pb.DestroyEnvironmentRequest{Id: envId.String(), AllowInRunningState: true, Force: true})
+		td := make(chan struct{})
+		go func() {
+			defer close(td)
+			_, _ = s.Rpc.DestroyEnvironment(context.Background(), &pb.DestroyEnvironmentRequest{Id: envId.String(), AllowInRunningState: true, Force: true})
+		}()
+		select {
+		case <-td:
+		case <-time.After(5 * time.Second):
+			w.abandoned++
+			fmt.Fprintf(os.Stderr, "h13: teardown of environment %d did not return within 5 s; left behind\n", w.seq)
+		}
 	}
 	kind := "env_ok"
 	if err != nil {
@@ -1175,6 +1188,7 @@ func main() {
 		extra["environments_created"] = w.seq
 		extra["deploy_retries"] = w.retries
 		extra["offer_rounds_repeated"] = w.reoffers
+		extra["teardowns_abandoned"] = w.abandoned
 	}
 	if err := gen.WriteCases(o, "C13", "From Verif Require Import Channels.", "c13_case", "report13", cases, extra); err != nil {
 		panic(err)
